@@ -350,6 +350,32 @@ def meshRun : MeshSt → List MeshOp → List Out
   | _, [] => []
   | s, op :: ops => (meshStep s op).1 :: meshRun (meshStep s op).2 ops
 
+/-! ### specification-side definitions used by the theorems about histories -/
+
+/-- the clamped vertices after a history of calls -/
+def gridState (tol : Rat) (pts : List V3) : List GridOp → List Nat → List Nat
+  | [], st => st
+  | .clamp pos :: ops, st => gridState tol pts ops (addClamp tol pts st pos).2
+  | .link _ _ :: ops, st => gridState tol pts ops st
+
+/-- state after a history given most-recent-first -/
+def stateRev : List MeshOp → MeshSt
+  | [] => {}
+  | op :: older => (meshStep (stateRev older) op).2
+
+/-- "is the mesh assembled?" read off the history alone, looking back from now: the most recent `clear` or
+    `assemble` decides — after a `clear` it is not; after an `assemble` it is iff it already was or something had
+    been added before; `add`, `grade`, `backport` do not change it -/
+def assembledSpec : List MeshOp → Bool
+  | [] => false
+  | .clear :: _ => false
+  | .assemble :: older => assembledSpec older || older.contains .add
+  | _ :: older => assembledSpec older
+
+def meshFold : MeshSt → List MeshOp → MeshSt
+  | s, [] => s
+  | s, op :: ops => meshFold (meshStep s op).2 ops
+
 /-! ### Line protocol
 
 `c20.call <name> <rationals [a,b,…]> <strings [s,…]>` → `accept|reject:<Class> pre|nopre`
